@@ -38,7 +38,26 @@ def _c16_nontrivial(cf):
     return re.search(r"26(?!2d)", cf[3]) is not None or (cf[2] in ("enc", "enct") and re.search(r"26(?!2d)", "\t".join(cf[4:])) is not None)
 
 
+def _c19_nontrivial(cf):
+    # both operands constrain something / several keys or a nested key
+    if cf[2] == "and":
+        return cf[3] != "()" and cf[4] != "()"
+    if cf[2] == "keys":
+        return " " in cf[3]
+    return cf[3] != "()"
+
+
 PROPS = {
+    "C19": dict(
+        correspondence="GoImap.Search (Model/Search.lean): Crit.and vs imap.SearchCriteria.And (resulting struct, field by field); matchesC vs imapmemserver message.search (via the verif hook); foldKeys vs the criteria the real server parser hands to a recording session for raw SEARCH lines",
+        rule="random criteria pairs over every field (sets, four date bounds, headers, body/text, flags, size bounds incl. unset/negative, NOT/OR depth<=2); random criteria x random messages; raw SEARCH commands of 1..8 keys (every key kind, nesting depth<=2, case variants, atom/quoted strings) each also in two random permutations. Non-trivial = both operands non-empty (and) / more than one key or a nested key (keys) / non-empty criteria (msg); distinct = different case line",
+        nontrivial=_c19_nontrivial,
+        trusted=["time.Time truncation to the calendar day, go-message header parsing and bytes.ToLower are below the modelled interface (the harness hands the model the truncated dates and lower-cased ASCII text)"],
+        assumptions=["message sizes are non-negative", "strings are ASCII (bytes.ToLower on non-ASCII is not modelled)", "SearchCriteria.ModSeq is outside the model (no matcher in the repository gives it meaning; And ignores it)"],
+        leanchecker=True,
+        level_text="proof: matches_and shows Crit.and is intersection for all criteria pairs (every field, arbitrary NOT/OR sub-trees) and all messages; legacy_and_counterexample keeps the machine-checked witness that the shipped And was not. The model is tied to SearchCriteria.And, to the in-memory backend's matcher and to the server's search-key parser on every run; the oracle evaluates And and key lists on a 96-message universe against the per-key RFC semantics",
+        level_note="Trusted: Lean kernel; harness/driver; time/go-message/bytes library code below the modelled interface. fold_keys (parser = conjunction of keys) is validated by the oracle, not yet proved.",
+    ),
     "C16": dict(
         correspondence="GoImap.Utf7 (Model/Utf7.lean) encode/decode vs utf7.Encoding one-shot String API; decTransform/encTransform vs explicit Transformer.Transform calls (nDst, nSrc, error class, bytes written, carried ascii flag through the next call)",
         rule="encoder: every string over a 10-symbol code-point alphabet (ASCII, &, -, comma, ~, U+0001, U+007F, 2/3/4-byte code points) up to length 4 (thorough 5), random longer ones over boundary code points; decoder: every string over {& - A B / + , = a CR 0x80} up to length 4 (thorough 6), a corpus of malformed forms, encoder outputs and their mutations; streaming: random (reveal 0..4, dst capacity 1..8) schedules and every split point of the corpus. Non-trivial = a shift sequence is produced or consumed; distinct = different case line",
